@@ -13,14 +13,14 @@ def run(ctx):
     g = ctx.tlc(MOD, "c05_edit/EditGraph_gen4.cfg" if big else GEN_CFG, workers=1, outfile=gen, heap="8g")
     out = ctx.sub("drive")
     meta = ctx.drive(out, gen=gen, shards=16)
-    if meta.get("A_transitions_replayed", 0) != 2 * (g["generated"] - 1):
+    if not meta.get("timed_out") and meta.get("A_transitions_replayed", 0) != 2 * (g["generated"] - 1):
         raise vlib.Infra("replayed %s transitions, TLC generated %s" % (meta.get("A_transitions_replayed"), g["generated"] - 1))
     import json
     for m in json.load(open(os.path.join(out, "replayA.json"))):
         ctx.candidates.append(m)
     traces = vlib.glob_traces(out)
     bad, st = ctx.accept(ACC, ACC_CFG, traces)
-    if st.get("segs") != meta["segments"]:
+    if st.get("segs", 0) != meta["segments"]:
         raise vlib.Infra("acceptor saw %s segments, driver wrote %s" % (st.get("segs"), meta["segments"]))
     vlib.add_bad_segments(ctx, traces, bad)
     ctx.cov.update(
